@@ -662,7 +662,9 @@ def c01_extra(tier, seed, lean):
             cv = json.load(open(covp))
             res['info'].update(header_lines_instantiated_by_tie_programs=cv['instantiated_code_lines'], header_lines_executed=cv['executed_code_lines'],
                                function_bodies_known=cv['bodies_total'], function_bodies_executed=cv['bodies_executed'],
-                               function_bodies_instantiated_never_run=cv['bodies_instantiated_only'], function_bodies_never_instantiated=cv['bodies_absent'])
+                               function_bodies_instantiated_never_run=cv['bodies_instantiated_only'], function_bodies_never_instantiated=cv['bodies_absent'],
+                               consteval_only_lines=cv.get('consteval_only_lines'), consteval_only_lines_reached_by_c08_programs=cv.get('consteval_only_lines_reached_by_c08_programs'),
+                               consteval_only_lines_not_reached=cv.get('consteval_only_lines_not_reached'))
         except Exception as e:
             res['info'].update(header_coverage_error=str(e)[:200])
     return res
